@@ -80,6 +80,11 @@ def extended_euclidean(q, r):
 
     while r:
         quot, t = divmod(q, r)
+        if not quot and t == q:
+            # e.g. integer polynomials whose leading coefficients do not
+            # divide: no progress is possible, and looping would never end.
+            raise ArithmeticError("division step made no progress: "
+                    "operands are not from a Euclidean domain")
         T = Q[0] - quot*R[0], Q[1] - quot*R[1]  # noqa
         q, r = r, t
         Q, R = R, T  # noqa: N806
